@@ -339,6 +339,9 @@ class Effects:
                     return frozenset(out)
                 return ANY
             if c.kind == "prim":
+                if isinstance(n.ast, ast.Call) and dotted(n.ast.func) == "dict.fromkeys" and len(n.ast.args) == 2 and isinstance(n.ast.args[1], ast.Constant) \
+                        and self._const_str_tuple(fn, n.ast.args[0]) is not None:
+                    return NONE  # dict.fromkeys(<constant tuple of strings>, <constant>)
                 out = set(prim_raises(c.name))
                 for t in targets:
                     out |= self.escapes.get(t.qname, NONE)
@@ -375,8 +378,229 @@ class Effects:
             a = n.ast
             if isinstance(a, (ast.Import, ast.ImportFrom)):
                 return frozenset({"ImportError"})
+            if n.kind == "stmt" and self._telemetry_safe(fn, a, n):
+                return NONE
             return frozenset({"LookupError", "TypeError", "ValueError", "ArithmeticError"})
         return ANY
+
+    # ------------------------------------------------- provably non-raising bookkeeping (counters, timers, log lines)
+    CLOCKS = {"time.time", "time.monotonic", "time.perf_counter", "time.process_time", "time.monotonic_ns", "time.time_ns",
+              "time.perf_counter_ns"}
+
+    def _const_str_tuple(self, fn: FunctionInfo, e: ast.AST) -> Optional[List[str]]:
+        ci = fn.cls if fn.cls is not None else (fn.parent.cls if fn.parent is not None else None)
+        if isinstance(e, ast.Attribute) and isinstance(e.value, ast.Name) and ci is not None and e.value.id in ("self", "cls", ci.name):
+            e = ci.consts.get(e.attr)  # type: ignore[assignment]
+        elif isinstance(e, ast.Name):
+            e = fn.module.consts.get(e.id)  # type: ignore[assignment]
+        if isinstance(e, (ast.Tuple, ast.List)) and all(isinstance(x, ast.Constant) and isinstance(x.value, str) for x in e.elts):
+            return [x.value for x in e.elts]  # type: ignore[attr-defined]
+        return None
+
+    def _counter_dict_keys(self, ci: Optional[ClassInfo], attr: str, allow_none: bool = False) -> Optional[Dict[str, bool]]:
+        """Keys of `self.<attr>` when EVERY store to it in the class is a dict of string-constant keys and numeric constants
+        (a display, `{k: 0 for k in <constant tuple>}` or `dict.fromkeys(<constant tuple>, 0)`) and nothing removes entries;
+        None when that cannot be shown."""
+        if ci is None:
+            return None
+        cache = self.__dict__.setdefault("_counter_dicts", {})
+        key = (ci.qname, attr, allow_none)
+        if key in cache:
+            return cache[key]
+        cache[key] = None  # (re-entrancy guard: a value mentioning the dict itself is not a number we can vouch for)
+
+        def const_tuple(e: ast.AST) -> Optional[List[str]]:
+            if isinstance(e, ast.Attribute) and isinstance(e.value, ast.Name) and e.value.id in ("self", "cls", ci.name):
+                e = ci.consts.get(e.attr)  # type: ignore[assignment]
+            elif isinstance(e, ast.Name):
+                e = ci.module.consts.get(e.id)  # type: ignore[assignment]
+            if isinstance(e, (ast.Tuple, ast.List)) and all(isinstance(x, ast.Constant) and isinstance(x.value, str) for x in e.elts):
+                return [x.value for x in e.elts]  # type: ignore[attr-defined]
+            return None
+
+        def num_const(e: ast.AST) -> bool:
+            return isinstance(e, ast.Constant) and isinstance(e.value, (int, float)) and not isinstance(e.value, bool)
+
+        def dict_shape(val: Optional[ast.AST], depth: int = 0) -> Optional[Dict[str, bool]]:
+            """key -> 'its initial value is a number' for a constant-keyed dict expression"""
+            if isinstance(val, ast.Dict) and all(isinstance(k, ast.Constant) and isinstance(k.value, str) for k in val.keys) \
+                    and all(isinstance(v, ast.Constant) for v in val.values):
+                return {k.value: num_const(v) for k, v in zip(val.keys, val.values)}  # type: ignore[union-attr]
+            if isinstance(val, ast.DictComp) and len(val.generators) == 1 and not val.generators[0].ifs \
+                    and isinstance(val.key, ast.Name) and isinstance(val.generators[0].target, ast.Name) \
+                    and val.key.id == val.generators[0].target.id and isinstance(val.value, ast.Constant):
+                ks_ = const_tuple(val.generators[0].iter)
+                return None if ks_ is None else {k: num_const(val.value) for k in ks_}
+            if isinstance(val, ast.Call) and dotted(val.func) == "dict.fromkeys" and len(val.args) == 2 and isinstance(val.args[1], ast.Constant):
+                ks_ = const_tuple(val.args[0])
+                return None if ks_ is None else {k: num_const(val.args[1]) for k in ks_}
+            if isinstance(val, ast.Call) and not val.args and not val.keywords and depth < 2 and isinstance(val.func, ast.Attribute) \
+                    and isinstance(val.func.value, ast.Name) and val.func.value.id in ("self", "cls", ci.name) and val.func.attr in ci.methods:
+                rets = [r for r in ast.walk(ci.methods[val.func.attr].node) if isinstance(r, ast.Return)]
+                shapes = [dict_shape(r.value, depth + 1) for r in rets]
+                if shapes and all(sh is not None for sh in shapes):
+                    out_: Dict[str, bool] = dict(shapes[0])  # type: ignore[arg-type]
+                    for sh in shapes[1:]:
+                        out_ = {k: v and sh[k] for k, v in out_.items() if k in sh}  # type: ignore[index]
+                    return out_
+            return None
+
+        keys: Optional[Dict[str, bool]] = None
+        ok = True
+        n_stores = 0
+        for m in ci.methods.values():
+            for x in ast.walk(m.node):
+                tgt = None
+                val = None
+                if isinstance(x, ast.Assign) and len(x.targets) == 1:
+                    tgt, val = x.targets[0], x.value
+                elif isinstance(x, ast.AnnAssign):
+                    tgt, val = x.target, x.value
+                if isinstance(tgt, ast.Attribute) and tgt.attr == attr and isinstance(tgt.value, ast.Name) and tgt.value.id == "self":
+                    n_stores += 1
+                    if allow_none and isinstance(val, ast.Constant) and val.value is None:
+                        continue
+                    sh = dict_shape(val)
+                    if sh is None:
+                        ok = False
+                    else:
+                        keys = dict(sh) if keys is None else {k: v and sh[k] for k, v in keys.items() if k in sh}
+                if isinstance(x, ast.Delete) and any(attr in norm_text(t) for t in x.targets):
+                    ok = False
+                if isinstance(x, ast.Call) and isinstance(x.func, ast.Attribute) and x.func.attr in ("pop", "clear", "popitem") \
+                        and isinstance(x.func.value, ast.Attribute) and x.func.value.attr == attr:
+                    ok = False
+                # a non-numeric value stored under a key later makes `+=` on it fallible
+                if isinstance(x, ast.Assign) and len(x.targets) == 1 and isinstance(x.targets[0], ast.Subscript) \
+                        and isinstance(x.targets[0].value, ast.Attribute) and x.targets[0].value.attr == attr \
+                        and isinstance(x.targets[0].slice, ast.Constant) and keys is not None and x.targets[0].slice.value in keys \
+                        and not self._num(m, x.value):
+                    keys[x.targets[0].slice.value] = False
+        if attr in ci.consts and not (allow_none and isinstance(ci.consts[attr], ast.Constant) and ci.consts[attr].value is None):
+            ok = False  # a class-level default of another shape
+        res = keys if ok and n_stores > 0 else None
+        cache[key] = res
+        return res
+
+    def _num(self, fn: FunctionInfo, e: Optional[ast.AST], depth: int = 0) -> bool:
+        """e evaluates, without raising, to an int / float: constants, clock reads, +,-,* of such, locals all of whose
+        assignments are such, parameters annotated int / float, entries of a counter dict."""
+        if e is None or depth > 6:
+            return False
+        if isinstance(e, ast.Constant):
+            return isinstance(e.value, (int, float)) and not isinstance(e.value, bool)
+        if isinstance(e, ast.Call):
+            d_ = dotted(e.func) or ""
+            if d_ in self.CLOCKS and not e.args and not e.keywords:
+                return True
+            if d_ == "len" and len(e.args) == 1 and isinstance(e.args[0], ast.Name):
+                for p in fn.params:
+                    if p.name == e.args[0].id and p.ann is not None:
+                        return norm_text(p.ann).split("[")[0] in ("bytes", "str", "list", "dict", "tuple", "List", "Dict", "Tuple", "Sequence", "bytearray")
+                return False
+            # self.<counter dict>.get(<const key>, <number>)
+            if isinstance(e.func, ast.Attribute) and e.func.attr == "get" and len(e.args) == 2 and isinstance(e.args[0], ast.Constant) \
+                    and self._num(fn, e.args[1], depth + 1) and isinstance(e.func.value, ast.Attribute) \
+                    and isinstance(e.func.value.value, ast.Name) and e.func.value.value.id == "self":
+                ci_ = fn.cls if fn.cls is not None else (fn.parent.cls if fn.parent is not None else None)
+                ks_ = self._counter_dict_keys(ci_, e.func.value.attr, allow_none=True)
+                return ks_ is not None and ks_.get(e.args[0].value, True) is True
+            return False
+        if isinstance(e, ast.BinOp) and isinstance(e.op, (ast.Add, ast.Sub, ast.Mult)):
+            return self._num(fn, e.left, depth + 1) and self._num(fn, e.right, depth + 1)
+        if isinstance(e, ast.Name):
+            top = fn
+            for p in top.params:
+                if p.name == e.id:
+                    return isinstance(p.ann, ast.Name) and p.ann.id in ("int", "float")
+            # every binding of the name in the function (statements of helpers analysed in place included: the CFG holds them)
+            stmts = {id(n_.ast): n_.ast for n_ in self.cfgs[top.qname].nodes if n_.ast is not None and n_.kind in ("stmt", "loop", "with_enter")}
+            defs = []
+            for x in stmts.values():
+                tg: List[ast.AST] = []
+                if isinstance(x, ast.Assign):
+                    tg = list(x.targets)
+                elif isinstance(x, (ast.AugAssign, ast.AnnAssign, ast.For, ast.AsyncFor)):
+                    tg = [x.target]
+                elif isinstance(x, ast.withitem) and x.optional_vars is not None:
+                    tg = [x.optional_vars]
+                if any(isinstance(t, ast.Name) and t.id == e.id for t_ in tg for t in ast.walk(t_)):
+                    defs.append(x)
+            return bool(defs) and all(isinstance(d, ast.Assign) and len(d.targets) == 1 and isinstance(d.targets[0], ast.Name)
+                                      and self._num(fn, d.value, depth + 1) for d in defs)
+        if isinstance(e, ast.Subscript) and isinstance(e.slice, ast.Constant) and isinstance(e.value, ast.Attribute) \
+                and isinstance(e.value.value, ast.Name) and e.value.value.id == "self":
+            ks = self._counter_dict_keys(fn.cls if fn.cls is not None else (fn.parent.cls if fn.parent is not None else None), e.value.attr)
+            return ks is not None and ks.get(e.slice.value) is True
+        return False
+
+    def _lazily_initialised_here(self, fn: FunctionInfo, n: Optional[Node], attr: str, ci: Optional[ClassInfo]) -> bool:
+        """Every normal way into node n comes from `self.<attr> = <counter dict>` or from the false edge of
+        `if self.<attr> is None:` - the `if x is None: x = {...}` idiom placed right before the statement."""
+        if n is None:
+            return False
+        g = self.cfgs[fn.qname]
+        preds: List[Tuple[int, str]] = []
+        work = [n.id]
+        seen_: Set[int] = set()
+        while work:
+            x = work.pop()
+            if x in seen_:
+                continue
+            seen_.add(x)
+            for p, l in g.pred[x]:
+                if l not in ("norm", "true", "false", "next"):
+                    continue
+                if g.nodes[p].kind == "call" and g.nodes[p].stmt is n.stmt:
+                    work.append(p)  # a call evaluated as part of this very statement
+                else:
+                    preds.append((p, l))
+        if not preds:
+            return False
+        for p, l in preds:
+            pn = g.nodes[p]
+            a_ = pn.ast
+            if pn.kind == "stmt" and isinstance(a_, ast.Assign) and len(a_.targets) == 1 and isinstance(a_.targets[0], ast.Attribute) \
+                    and a_.targets[0].attr == attr and not (isinstance(a_.value, ast.Constant) and a_.value.value is None):
+                continue
+            if pn.kind == "branch" and isinstance(a_, ast.Compare) and len(a_.ops) == 1 and isinstance(a_.ops[0], ast.Is) \
+                    and isinstance(a_.left, ast.Attribute) and a_.left.attr == attr and isinstance(a_.comparators[0], ast.Constant) \
+                    and a_.comparators[0].value is None and l == "false":
+                continue
+            return False
+        return True
+
+    def _telemetry_safe(self, fn: FunctionInfo, a: Optional[ast.AST], n: Optional[Node] = None) -> bool:
+        """Statements of pure bookkeeping that cannot raise: `self.n = <num>`, `x = <num>`, `self.d['k'] = <num>` /
+        `self.d['k'] += <num>` on a counter dict, `logger.debug(f"... {<num or plain name>} ...")`."""
+        ci = fn.cls if fn.cls is not None else (fn.parent.cls if fn.parent is not None else None)
+        if isinstance(a, ast.Assign) and len(a.targets) == 1:
+            t = a.targets[0]
+            if isinstance(t, ast.Name) or (isinstance(t, ast.Attribute) and isinstance(t.value, ast.Name) and t.value.id == "self"):
+                return self._num(fn, a.value)
+            if isinstance(t, ast.Subscript) and isinstance(t.slice, ast.Constant) and isinstance(t.slice.value, str) \
+                    and isinstance(t.value, ast.Attribute) and isinstance(t.value.value, ast.Name) and t.value.value.id == "self":
+                if self._counter_dict_keys(ci, t.value.attr) is not None:
+                    return self._num(fn, a.value)
+                return self._counter_dict_keys(ci, t.value.attr, allow_none=True) is not None \
+                    and self._lazily_initialised_here(fn, n, t.value.attr, ci) and self._num(fn, a.value)
+            return False
+        if isinstance(a, ast.AugAssign) and isinstance(a.op, (ast.Add, ast.Sub)):
+            t = a.target
+            if isinstance(t, ast.Subscript) and isinstance(t.slice, ast.Constant) and isinstance(t.value, ast.Attribute) \
+                    and isinstance(t.value.value, ast.Name) and t.value.value.id == "self":
+                ks = self._counter_dict_keys(ci, t.value.attr)
+                return ks is not None and ks.get(t.slice.value) is True and self._num(fn, a.value)
+            return False
+        if isinstance(a, ast.Expr) and isinstance(a.value, ast.Call) and (dotted(a.value.func) or "").split(".")[0] in ("logger", "logging"):
+            for arg in list(a.value.args) + [k.value for k in a.value.keywords]:
+                parts = [v.value for v in arg.values if isinstance(v, ast.FormattedValue)] if isinstance(arg, ast.JoinedStr) else [arg]
+                for p_ in parts:
+                    if isinstance(p_, (ast.Constant, ast.Name)) or (isinstance(p_, ast.Attribute) and dotted(p_)) or self._num(fn, p_):
+                        continue
+                    return False
+            return True
+        return False
 
     @staticmethod
     def _enclosing_handler(n: Node) -> Optional[ast.ExceptHandler]:
